@@ -49,9 +49,10 @@ def parseOpd : Sx → Option Opd
 
 def Opd.arr (o : Opd) : Arr Int := Arr.ofFlat o.d.full o.vals
 
+/-- the property allows either exception class for a rejection: both print as `Rejected` -/
 def rejSx : Rej → Sx
-  | .valueError => .atom "ValueError"
-  | .typeError => .atom "TypeError"
+  | .valueError => .atom "Rejected"
+  | .typeError => .atom "Rejected"
 
 /-- rows of exact values, one per leading index; blanked rows print `m` -/
 def rows (lead item : Shape) (blank : Array Bool) (get : Index → Int) : Sx :=
@@ -78,7 +79,11 @@ def binary (op : OpSym) (a b : Opd) (blank : Array Bool) : Sx :=
         match ewValues op pa ra pb rb a.arr b.arr with
         | some v => .list (head r ++ [rows r.lead item blank v.get])
         | none => err "plan-does-not-broadcast"
-      | .right => .list (head r ++ [rows r.lead item blank fun i => b.arr.get i * 8])
+      | .right =>
+        -- the right operand, broadcast over the leading axes (item index passes through)
+        let nl := r.lead.length
+        .list (head r ++ [rows r.lead item blank fun i =>
+          b.arr.get (bidx (b.d.full.take (b.d.full.length - item.length)) (i.take nl) ++ i.drop nl) * 8])
       | .dot =>
         match dotFull a.d b.d a.arr b.arr with
         | some v => .list (head r ++ [rows r.lead item blank v.get])
@@ -120,7 +125,7 @@ def handle : List Sx → Sx
     | some a, some b =>
       match bcast a b with
       | some r => .list [.atom "shape", Sx.ofNats r]
-      | none => .atom "ValueError"
+      | none => .atom "Rejected"
     | _, _ => err "shape"
   | [.atom "neg", a, bl] => match parseOpd a with | some a => unaryH .neg a (parseBlank bl) | none => err "operand"
   | [.atom "abs", a, bl] => match parseOpd a with | some a => unaryH .abs a (parseBlank bl) | none => err "operand"
